@@ -585,12 +585,16 @@ func genMPEGTS(r *rng.R) (Desc, bool) {
 		}
 		for _, sg := range streams[si].Segs {
 			found := false
+			have := map[int]bool{}
 			for _, p := range sg.PES {
+				have[p.Track] = true
 				if p.Track == sl {
 					found = true
 				}
 			}
-			if !found {
+			// mediacommon's Reader.Initialize reads the codec parameters of every PMT entry from
+			// the first segment it is given: a segment the Client may start from carries all tracks
+			if !found || len(have) != len(streams[si].Tracks) {
 				return d, false
 			}
 		}
